@@ -7,6 +7,7 @@ equal to the node id). Signatures are ideal (DESIGN §3.1).
 -/
 import P2.Model.AddrBook
 import P2.Lemmas.HybridTs
+import P2.Extracted.C27
 
 namespace P2.C27
 open P2.HybridTs P2.AddrBook
@@ -296,6 +297,46 @@ theorem authentic_trusted_iff (node : Nat) (r : Rec) (hk : r.kind = .trusted) :
   · simp only [h, if_false, Option.isNone_some, Bool.false_eq_true, false_iff]
     intro hall; apply h
     exact List.all_eq_true.2 (fun i hi => by simpa using hall i hi)
+
+/-! ### ties to the source text (regenerated from /repo on every run) -/
+
+/-- The `Some(current)` arm of `update_transports`, as `rs2lean` translates the current Rust text
+    (strict `>` on the timestamps, store + `is_newer = true` only in that case), is the model's step. -/
+theorem c27_update_is_source (node : Nat) (c r : Rec) (hv : verify node r = none) :
+    update node (some c) r =
+      ((P2.Extracted.C27.updateSomeT c.ts r.ts c r).1, .ok (P2.Extracted.C27.updateSomeT c.ts r.ts c r).2) := by
+  unfold update P2.Extracted.C27.updateSomeT
+  rw [hv]
+  by_cases h : c.ts < r.ts
+  · simp [h]
+  · simp [h]
+
+/-- `AuthenticatedTransportInfo::verify` as translated from the current text: one signature check of the
+    *node id* over the bytes of `self.to_unsigned()` with `self.signature`; error exactly when it fails. -/
+theorem c27_auth_verify_is_source (node : Nat) (r : Rec) (hk : r.kind = .auth) :
+    verify node r =
+      (P2.Extracted.C27.authVerifyT
+        (fun _ => decide (r.sigKey = node ∧ r.sigTs = r.ts ∧ r.sigPayload = r.payload)) 0).map
+        (fun _ => VErr.invalidSignature) := by
+  unfold verify P2.Extracted.C27.authVerifyT
+  rw [hk]
+  by_cases h : r.sigKey = node ∧ r.sigTs = r.ts ∧ r.sigPayload = r.payload <;> simp [h]
+
+/-- The parts of `update_transports` / `verify` / `sign` that are outside the translator's subset, tied as
+    text: verification is the *first* statement (before any comparison or store), the match is on the stored
+    transports, the `None` arm stores unconditionally, the result is `is_newer`; the signed bytes are those of
+    (timestamp, addresses); trusted records check *every* address against the node id. -/
+theorem c27_source_shape :
+    P2.Extracted.C27.updateFirstStmt = "other.verify(&self.node_id)?;" ∧
+    P2.Extracted.C27.updateMatchScrutinee = "self.transports.as_ref()" ∧
+    P2.Extracted.C27.updateNoneArm = "is_newer = true; self.transports = Some(other)" ∧
+    P2.Extracted.C27.updateResult = "Ok(is_newer)" ∧
+    P2.Extracted.C27.toUnsignedFields = "timestamp: self.timestamp, addresses: self.addresses.clone()," ∧
+    P2.Extracted.C27.unsignedSignBytes = "let bytes = self.to_bytes()?; signing_key.sign(&bytes)" ∧
+    P2.Extracted.C27.trustedVerifyBody = "for address in &self.addresses { address.verify(node_id)?; } Ok(())" ∧
+    P2.Extracted.C27.addrVerifyCond =
+      "TransportAddress::Iroh(endpoint_addr) = self && &to_verifying_key(endpoint_addr.id) != node_id" := by
+  decide
 
 /-! ### non-vacuity: a forged record with the largest timestamp among honest ones, two orders -/
 
